@@ -943,6 +943,9 @@ package zygo
 // ===========================================================================
 // C20  evaluation is deterministic: first-match scans over Go maps
 // ===========================================================================
+// a *PrintState remembers which scopes and packages a printer has expanded already (the second
+// reference prints as "already-saw"): it must not be handed to a call from inside a map walk
+//@ orderstate C20 PrintState
 //@ maporder C20 hashutils.go
 //@ maporder C20 callgo.go
 //@ maporder C20 jsonmsgp.go
